@@ -1,6 +1,10 @@
 """Shared driver for the group functions (C11, C12): real pools, perturbed completion order,
 placement observed by matching every returned table against directly computed candidates."""
+import os
+import sys
+import tempfile
 import time
+import types
 import numpy as np
 from harness import coqio
 from harness.core import exc_kind
@@ -32,7 +36,25 @@ KW_POOL = [
     {'center_extrema': 'peak', 'find_extrema_kwargs': {'boundary': 40},
      'threshold_kwargs': {'monotonicity_threshold': 1.0, 'min_n_cycles': 1}},
 ]
-SHARED_ID = 999
+SHARED_ID = 999      # one dict shared by all rows / slices
+NONE_ID = 998        # compute_features_kwargs not given: the empty option set (Model/Group.v none_id)
+
+
+def kw_term(mode, kw):
+    """Coq term of type gkw (Model/Group.v)."""
+    if mode == 'none':
+        return 'GNone'
+    if mode == 'list':
+        return '(GList %s)' % nat_list(kw)
+    return 'GShared'
+
+
+def option_set(a, rs_key=None):
+    """Fresh copy of option set a of the pool; rs_key True/False adds a 'return_samples' entry (documented: ignored)."""
+    kw = {k: (dict(v) if isinstance(v, dict) else v) for k, v in KW_POOL[a].items()}
+    if rs_key is not None:
+        kw['return_samples'] = bool(rs_key)
+    return kw
 
 
 def make_sig(k, n=220):
@@ -43,6 +65,10 @@ def make_sig(k, n=220):
 
 
 _DELAYS = {}
+_TASKS = {}          # first sample of a task's array -> submission index
+_LOG = [None]        # path of the completion log of the current call (inherited by forked workers)
+STATS = {'calls_logged': 0, 'log_is_permutation': 0, 'observed_reordered': 0, 'observed_equals_intended_schedule': 0,
+         'perturbed_schedule_calls': 0, 'perturbed_and_observed_reordered': 0}
 
 
 def _key(sig):
@@ -50,18 +76,34 @@ def _key(sig):
 
 
 def delayed_cf(sig, *a, **k):
-    """Stand-in for bycycle.group.features.compute_features inside workers: sleeps, then delegates."""
+    """Stand-in for bycycle.group.features.compute_features inside workers: sleeps, then delegates,
+    then appends the task's key to the completion log (one short O_APPEND write per task)."""
     from bycycle.features import compute_features as real
-    d = _DELAYS.get(_key(sig), 0.0)
+    key = _key(sig)
+    d = _DELAYS.get(key, 0.0)
     if d:
         time.sleep(d)
-    return real(sig, *a, **k)
+    try:
+        return real(sig, *a, **k)
+    finally:
+        path = _LOG[0]
+        if path is not None:
+            try:
+                fd = os.open(path, os.O_WRONLY | os.O_APPEND)
+                try:
+                    os.write(fd, (repr(key) + '\n').encode())
+                finally:
+                    os.close(fd)
+            except OSError:
+                pass
 
 
 def install_delays(sigs_flat_first, schedule):
     """sigs_flat_first: list of the arrays whose first sample identifies a pool task, in submission order."""
     import bycycle.group.features as gf
     _DELAYS.clear()
+    _TASKS.clear()
+    _LOG[0] = None
     n = len(sigs_flat_first)
     for i, s in enumerate(sigs_flat_first):
         if schedule == 'reverse':
@@ -73,17 +115,153 @@ def install_delays(sigs_flat_first, schedule):
         else:
             d = 0.0
         _DELAYS[_key(s)] = d
+        _TASKS[_key(s)] = i
     if not hasattr(gf, 'compute_features'):
         return None
+    try:
+        fd, path = tempfile.mkstemp(prefix='verif_group_', suffix='.log')
+        os.close(fd)
+        _LOG[0] = path
+    except OSError:
+        _LOG[0] = None
     orig = gf.compute_features
     gf.compute_features = delayed_cf
     return orig
 
 
-def uninstall(orig):
+def uninstall(orig, schedule=None):
+    """Restore the worker function; return the OBSERVED completion order (submission indices in the order the
+    workers finished) or None when it could not be observed (internal name gone, log unreadable)."""
     import bycycle.group.features as gf
     if orig is not None:
         gf.compute_features = orig
+    path, _LOG[0] = _LOG[0], None
+    if path is None:
+        return None
+    order = None
+    try:
+        with open(path) as f:
+            order = [_TASKS.get(float(line), -1) for line in f.read().split()]
+    except (OSError, ValueError):
+        order = None
+    try:
+        os.unlink(path)
+    except OSError:
+        pass
+    if order is not None:
+        n = len(_TASKS)
+        STATS['calls_logged'] += 1
+        perm = sorted(order) == list(range(n))
+        STATS['log_is_permutation'] += perm
+        reordered = perm and order != list(range(n))
+        STATS['observed_reordered'] += reordered
+        if schedule is not None:
+            STATS['observed_equals_intended_schedule'] += (order == sigma_of(schedule, n))
+            if schedule != 'none' and n >= 2:
+                STATS['perturbed_schedule_calls'] += 1
+                STATS['perturbed_and_observed_reordered'] += reordered
+    return order
+
+
+def sigma_for(schedule, n, observed):
+    """Completion order handed to the model: the observed one when it is a permutation of the n tasks
+    (the theorem covers every permutation), else the intended one."""
+    if observed is not None and sorted(observed) == list(range(n)):
+        return list(observed)
+    return sigma_of(schedule, n)
+
+
+class ProgressStub:
+    """In-process stand-in for tqdm / tqdm.notebook (neither is installed in /venv): `tqdm(iterable, ...)` yields the
+    items of the iterable unchanged and records how it was used.  It offers the usual tqdm surface (iteration,
+    len, update, close, context manager, set_description, refresh, write) so that a rewrite of the caller that uses the
+    bar differently still runs."""
+
+    def __init__(self):
+        self.saved = {}
+        self.record = {'calls': 0, 'module': None, 'total': None, 'pulled': 0, 'updated': 0}
+
+    def _cls(self, modname):
+        rec = self.record
+
+        class tqdm(object):
+            def __init__(self, iterable=None, desc=None, total=None, *a, **k):
+                rec['calls'] += 1
+                rec['module'] = modname
+                rec['total'] = total if (total is None or isinstance(total, (int, float))) else str(total)
+                self.iterable = iterable
+                self.total = total
+                self.desc = desc
+                self.n = 0
+
+            def __iter__(self):
+                for x in self.iterable:
+                    rec['pulled'] += 1
+                    self.n += 1
+                    yield x
+
+            def __len__(self):
+                if self.total is not None:
+                    return int(self.total)
+                return len(self.iterable)
+
+            def __enter__(self):
+                return self
+
+            def __exit__(self, *exc):
+                return False
+
+            def update(self, n=1):
+                rec['updated'] += n
+                self.n += n
+
+            def close(self):
+                pass
+
+            def refresh(self, *a, **k):
+                pass
+
+            def reset(self, total=None):
+                self.n = 0
+
+            def set_description(self, desc=None, refresh=True):
+                self.desc = desc
+
+            set_description_str = set_description
+
+            def set_postfix(self, *a, **k):
+                pass
+
+            @staticmethod
+            def write(s, *a, **k):
+                pass
+
+        return tqdm
+
+    def install(self):
+        for name in ('tqdm', 'tqdm.notebook', 'tqdm.auto'):
+            self.saved[name] = sys.modules.get(name, None)
+        top = types.ModuleType('tqdm')
+        top.tqdm = self._cls('tqdm')
+        top.trange = lambda *a, **k: top.tqdm(range(*a), **k)
+        top.__path__ = []
+        for sub in ('notebook', 'auto'):
+            m = types.ModuleType('tqdm.' + sub)
+            m.tqdm = self._cls('tqdm.' + sub)
+            m.trange = (lambda mm: (lambda *a, **k: mm.tqdm(range(*a), **k)))(m)
+            setattr(top, sub, m)
+            sys.modules['tqdm.' + sub] = m
+        sys.modules['tqdm'] = top
+        return self
+
+    def uninstall(self):
+        for name, old in self.saved.items():
+            if old is None:
+                sys.modules.pop(name, None)
+            else:
+                sys.modules[name] = old
+        self.saved = {}
+        return dict(self.record)
 
 
 def sigma_of(schedule, n):
